@@ -48,6 +48,14 @@ def _neg(a):
     return -a
 
 
+def _cap_high(a):
+    return jnp.minimum(a, 1.0)
+
+
+def _cap_low(a):
+    return jnp.maximum(a, -1.0)
+
+
 def wrap_one(env, spec):
     name = spec[0]
     if name == "Identity":
@@ -64,6 +72,12 @@ def wrap_one(env, spec):
             return W.TransformAction(env, _neg, Box(-sp.high, -sp.low, shape=sp.shape))
         n = sp.n
         return W.TransformAction(env, lambda a: (a + 1) % n, Discrete(n), mask_func=lambda m: jnp.roll(m, -1))
+    if name in ("HalfBoxHigh", "HalfBoxLow"):
+        # documented TransformAction with a one-sided declared space: [low, inf) capped onto the inner box from above (or the mirror image)
+        sp = env.action_space
+        if name == "HalfBoxHigh":
+            return W.TransformAction(env, _cap_high, Box(sp.low, jnp.full(sp.shape, jnp.inf), shape=sp.shape))
+        return W.TransformAction(env, _cap_low, Box(jnp.full(sp.shape, -jnp.inf), sp.high, shape=sp.shape))
     if name == "ClipObservation":
         return W.ClipObservation(env)
     if name == "RescaleObservation":
@@ -282,7 +296,12 @@ class Runner:
                 if not np.isfinite(lo):  # a ClipAction makes the outer action space unbounded: use the bounds below it
                     clip_level = max(i for i, sp in enumerate(rs.stack) if sp[0] == "ClipAction")
                     ilo, ihi = rs.action_bounds_below(clip_level)
-                    grid = [ilo - 3.0, ilo, ilo + (ihi - ilo) * 0.25 + 1e-3, (ilo + ihi) / 2 + 1e-3, ihi, ihi + 2.5, ihi + 100.0, ilo - 0.5]
+                    if np.isfinite(ilo) and np.isfinite(ihi):
+                        grid = [ilo - 3.0, ilo, ilo + (ihi - ilo) * 0.25 + 1e-3, (ilo + ihi) / 2 + 1e-3, ihi, ihi + 2.5, ihi + 100.0, ilo - 0.5]
+                    elif np.isfinite(ilo):   # one-sided box [ilo, inf): only the lower side can be violated
+                        grid = [ilo - 3.0, ilo, ilo + 0.5 + 1e-3, ilo + 1.0 + 1e-3, ilo + 2.0, ilo + 4.5, 1e30, ilo - 0.5]
+                    else:                    # (-inf, ihi]
+                        grid = [ihi + 3.0, ihi, ihi - 0.5 - 1e-3, ihi - 1.0 - 1e-3, ihi - 2.0, ihi - 4.5, -1e30, ihi + 0.5]
                     vals.append(grid[bits])
                     continue
                 nb = self.comps[j] if self.kind == "box" else self.comps[0]
